@@ -310,7 +310,7 @@ class Harness:
                 tail = unordered[1]
             n = len(want)
             gi = [g[0] for g in got]
-            if got[:n] != want or len(got) != n + len(tail) or sorted(map(repr, got[n:])) != sorted(map(repr, tail)):
+            if got[:n] != want or len(got) != n + len(tail) or sorted(map(fg.canon_repr, got[n:])) != sorted(map(fg.canon_repr, tail)):
                 wi = [w[0] for w in want]
                 ti = sorted(t[0] for t in tail)
                 if len(got) > n + len(tail):
